@@ -12,6 +12,8 @@ entry with "absent key = zero contribution", `dkeys d` its keys in insertion ord
 -/
 import ChemModel.Proofs.Kinetics
 
+set_option linter.unusedSectionVars false
+
 namespace ChemModel.C03
 open ChemModel.Kinetics
 
@@ -38,13 +40,29 @@ theorem rxnRate_keys (c : σ → R) (r : Reaction σ R) (keys : List σ) :
   rw [dictOf_map_of_nodup keys _ h]
   simp [dkeys, Function.comp_def]
 
-omit [DecidableEq σ] in
-/-- **Inactive reactants never enter the concentration product** (nor do products): the product read by the rate
-    expression is `∏` over the *active* reactants only, whatever the other three dictionaries contain. -/
-theorem inactive_not_in_product (c : σ → R) (r : Reaction σ R) (prod' inactReac' inactProd' : List (σ × ℕ)) :
-    activeConcProd c { r with prod := prod', inactReac := inactReac', inactProd := inactProd' } = activeConcProd c r ∧
-      activeConcProd c r = (r.reac.map fun jν => c jν.1 ^ jν.2).prod :=
-  ⟨rfl, activeConcProd_eq c r⟩
+/-- **Inactive reactants never enter the concentration product, on the system path.**  Replace, in one reaction `r` of a
+    system, the inactive dictionaries by ARBITRARY other ones (`r'`).  Then for every requested substance `s` the system
+    rate changes by exactly `Δnet · k·∏_{(j,ν) ∈ reac} c j^ν`, where `Δnet` is the change of the net coefficient of `s` and the
+    product is still taken over the active reactants of `r` only: inactive coefficients can act through the net
+    stoichiometry and through nothing else (no exponent, no factor), whatever the other reactions and the CSTR terms are.
+    (The `rfl`-level fact "the product reads `reac` only" is `Kinetics.activeConcProd_ignores_other_parts`.) -/
+theorem inactive_parts_effect (c : σ → R) (rs₁ rs₂ : List (Reaction σ R)) (r : Reaction σ R)
+    (inactReac' inactProd' : List (σ × ℕ)) (keys? : Option (List σ)) (cstr? : Option (Cstr σ)) (s : σ)
+    (hs : ∀ ks, keys? = some ks → s ∈ ks) :
+    let r' : Reaction σ R := { r with inactReac := inactReac', inactProd := inactProd' }
+    valueAt (sysRates c (rs₁ ++ r' :: rs₂) keys? cstr?) s =
+      valueAt (sysRates c (rs₁ ++ r :: rs₂) keys? cstr?) s +
+        ((netStoich r' s - netStoich r s : ℤ) : R) * (r.param * (r.reac.map fun jν => c jν.1 ^ jν.2).prod) := by
+  intro r'
+  rw [valueAt_sysRates_sum c _ keys? cstr? s hs, valueAt_sysRates_sum c _ keys? cstr? s hs]
+  simp only [List.map_append, List.map_cons, List.sum_append, List.sum_cons]
+  have h : contribution c r' s = contribution c r s +
+      ((netStoich r' s - netStoich r s : ℤ) : R) * (r.param * (r.reac.map fun jν => c jν.1 ^ jν.2).prod) := by
+    simp only [contribution, netStoich, concProd, r']
+    push_cast
+    ring
+  rw [h]
+  ring
 
 /-- Inactive coefficients act on the rate of a substance only through its net stoichiometry: two reactions with the
     same active reactants, the same constant and the same net coefficient of `s` report the same value for `s`. -/
@@ -191,31 +209,62 @@ theorem array_path_eq_dict_path (keys : List σ) (conc : List R) (rs : List (Rea
     intro r _
     simp [keysFor, valueAt_rxnRate, hs, netStoich_mul_arrayRate]
 
-/-- **The only failure on numeric input is a missing variable**: on a `variables` dict the modelled
-    `ReactionSystem.rates` raises `KeyError` iff a concentration of an active reactant (or, under CSTR, the flow key,
-    a feed key or a fed substance) is missing; otherwise it returns the dict described by the theorems above for the
-    concentration function read from `variables`. -/
-theorem ratesDict_keyError_iff (vars : List (σ × R)) (rs : List (Reaction σ R)) (keys? : Option (List σ))
-    (cstr? : Option (Cstr σ)) :
-    (ratesDict vars rs keys? cstr? = none ↔ ∃ k ∈ neededVars rs cstr?, k ∉ dkeys vars) ∧
-      (∀ d, ratesDict vars rs keys? cstr? = some d → d = sysRates (fun k => dgetD vars k 0) rs keys? cstr?) := by
-  unfold ratesDict missingVars
+/-- **Stoichiometry matrices** (`net_stoichs`, `all_reac_stoichs`, `active_reac_stoichs`, `all_prod_stoichs`,
+    `active_prod_stoichs`): one row per reaction, one column per key; entry `(i, j)` is the corresponding coefficient of
+    substance `keys[j]` in reaction `rs[i]` (and there is an entry exactly when both indices are in range). -/
+theorem stoich_matrices_entries (rs : List (Reaction σ R)) (keys : List σ) (i j : ℕ) :
+    ((netStoichs rs keys)[i]?.bind (·[j]?) = rs[i]?.bind fun r => keys[j]?.map fun s =>
+        (coef r.prod s : ℤ) - (coef r.reac s : ℤ) + (coef r.inactProd s : ℤ) - (coef r.inactReac s : ℤ)) ∧
+    ((allReacStoichs rs keys)[i]?.bind (·[j]?) = rs[i]?.bind fun r => keys[j]?.map fun s =>
+        ((coef r.reac s + coef r.inactReac s : ℕ) : ℤ)) ∧
+    ((activeReacStoichs rs keys)[i]?.bind (·[j]?) = rs[i]?.bind fun r => keys[j]?.map fun s => ((coef r.reac s : ℕ) : ℤ)) ∧
+    ((allProdStoichs rs keys)[i]?.bind (·[j]?) = rs[i]?.bind fun r => keys[j]?.map fun s =>
+        ((coef r.prod s + coef r.inactProd s : ℕ) : ℤ)) ∧
+    ((activeProdStoichs rs keys)[i]?.bind (·[j]?) = rs[i]?.bind fun r => keys[j]?.map fun s => ((coef r.prod s : ℕ) : ℤ)) :=
+  ⟨entry_map_map (fun r s => netStoich r s) rs keys i j, entry_map_map _ rs keys i j, entry_map_map _ rs keys i j,
+   entry_map_map _ rs keys i j, entry_map_map _ rs keys i j⟩
+
+/-- **net = all products − all reactants**, as matrices, and the shape is `(nr, ns)` (also for `nr = 0`: no rows). -/
+theorem net_eq_allProd_sub_allReac (rs : List (Reaction σ R)) (keys : List σ) :
+    netStoichs rs keys = List.zipWith (List.zipWith (· - ·)) (allProdStoichs rs keys) (allReacStoichs rs keys) ∧
+      (netStoichs rs keys).length = rs.length ∧ ∀ row ∈ netStoichs rs keys, row.length = keys.length := by
+  refine ⟨?_, by simp [netStoichs], ?_⟩
+  · simp only [netStoichs, allProdStoichs, allReacStoichs, List.zipWith_map, List.zipWith_self]
+    apply List.map_congr_left
+    intro r _
+    simp only [netStoichTuple, allProdStoich, allReacStoich, List.zipWith_map, List.zipWith_self]
+    apply List.map_congr_left
+    intro s _
+    simp only [netStoich]
+    push_cast
+    ring
+  · intro row hrow
+    simp only [netStoichs, List.mem_map] at hrow
+    obtain ⟨r, _, rfl⟩ := hrow
+    simp [netStoichTuple]
+
+/-- **`get_coeff_mtx`** (rows = substances, columns = reactions given as (reac, prod) integer dictionaries): entry `(j, i)`
+    is `prod.get(s, 0) − reac.get(s, 0)`; for the active dictionaries of a reaction list it is the transpose of
+    `active_prod_stoichs − active_reac_stoichs`. -/
+theorem getCoeffMtx_entries (substances : List σ) (stoichs : List (List (σ × ℤ) × List (σ × ℤ))) (rs : List (Reaction σ R))
+    (j i : ℕ) :
+    ((getCoeffMtx substances stoichs)[j]?.bind (·[i]?) =
+        substances[j]?.bind fun s => stoichs[i]?.map fun rp => dgetD rp.2 s 0 - dgetD rp.1 s 0) ∧
+    ((getCoeffMtx substances (rs.map fun r => (r.reac.map fun kv => (kv.1, (kv.2 : ℤ)), r.prod.map fun kv => (kv.1, (kv.2 : ℤ)))))[j]?.bind (·[i]?) =
+        substances[j]?.bind fun s => rs[i]?.map fun r => ((coef r.prod s : ℕ) : ℤ) - ((coef r.reac s : ℕ) : ℤ)) := by
   constructor
-  · cases h : List.find? (fun k => !dmem vars k) (neededVars rs cstr?) with
-    | none =>
-      simp only [reduceCtorEq, false_iff, not_exists, not_and, not_not]
-      intro k hk
-      have := List.find?_eq_none.mp h k hk
-      simpa [dmem_iff] using this
-    | some k =>
-      simp only [true_iff]
-      refine ⟨k, List.mem_of_find?_eq_some h, ?_⟩
-      have := List.find?_some h
-      simpa [← dmem_iff] using this
-  · intro d
-    cases h : List.find? (fun k => !dmem vars k) (neededVars rs cstr?) with
-    | none => simp; intro e; exact e.symm
-    | some k => simp
+  · simp only [getCoeffMtx, List.getElem?_map]
+    cases substances[j]? with
+    | none => rfl
+    | some s => simp [List.getElem?_map]
+  · simp only [getCoeffMtx, List.getElem?_map]
+    cases substances[j]? with
+    | none => rfl
+    | some s =>
+      simp only [Option.map_some, Option.bind_some, List.getElem?_map]
+      cases rs[i]? with
+      | none => rfl
+      | some r => simp [dgetD_map_cast]
 
 /-! ### The hypotheses are satisfiable: a concrete system with a catalyst, inactive parts and a substance in two reactions -/
 
